@@ -15,6 +15,10 @@ ENGINES = [
      "kind_free_text": "origin/phase-ramp typestate of fftshift/ifftshift/fft2/ifft2 pipelines per parity class"},
     {"name": "CACHE-b", "path": "sa/domains/cachestate.py", "serves_properties": ["C12"],
      "kind_free_text": "typestate of lazily cached coordinate arrays: versions of shape/scale/origin; inductive invariant over all mutators"},
+    {"name": "ORDER", "path": "sa/domains/order.py", "serves_properties": ["C07", "C08", "C09", "C10"],
+     "kind_free_text": "denotation of recurrence loops: carried names become opaque order atoms; inductive invariant with reference recurrences; symbolic order lists and emission guards"},
+    {"name": "SHAPE", "path": "sa/domains/shape.py", "serves_properties": ["C08"],
+     "kind_free_text": "array shapes with pairwise-distinct symbolic dimensions; right-aligned broadcasting; ranks 0..3"},
     {"name": "INTERP", "path": "sa/core/interp.py", "serves_properties": ["C17"],
      "kind_free_text": "abstract interpreter over the Python subset prysm uses; pluggable domains; path enumeration; abstract inlining of resolved prysm callees"},
 ]
@@ -87,8 +91,62 @@ CLAIMS["C13"] = {
     "note": TRUST + "ORIGIN typestate; the installed NumPy/SciPy API surface (read by importing those libraries, not prysm); frozen list of names new in NumPy 2.x.",
 }
 
+OTRUST = TRUST + "ORDER engine (carried-set loop denotation with reference recurrences, sa/domains/order.py); reference families of sa/rules/polyfam.py (DLMF 18.9, Mason & Handscomb Chebyshev kinds, Dickson D_0=2/E_0=1); "
+CLAIMS["C07"] = {
+    "engine": "ORDER",
+    "technique": "static analysis: inductive loop-invariant checking of the three-term recurrence loops inside NORM (carried names become opaque order atoms, one symbolic iteration, post-state == head state at i+1); NORM equality of base cases and compositions with generated reference closed forms",
+    "text": "Decides for EVERY order n and all shape parameters: recurrence_abc == DLMF 18.9.2 (special case == general after cancellation); jacobi, hermite_He, hermite_H, laguerre, dickson1, dickson2: base cases equal the reference closed forms and the loop preserves 'carried names hold orders i-2, i-1', so f(n) is the order-n polynomial; Legendre and the four Chebyshev kinds (and their derivatives) are the correctly normalised Jacobi polynomials; Zernike norm and Z_n^m = norm r^|m| P^(0,|m|)((n-|m|)/2; 2r^2-1) cos/sin for m=0, m>0, m<0. Not decided: orthogonality / unit-RMS integrals, Forbes Q polynomials against the papers (no independent reference offline), float growth at high order.",
+    "note": OTRUST + "orders n >= 0.",
+}
+CLAIMS["C08"] = {
+    "engine": "ORDER",
+    "technique": "static analysis: ORDER interpretation of the emission sweeps with a symbolic order list (guards ns[k]==e tie stored values to orders); SHAPE abstract interpretation with pairwise-distinct symbolic dimensions for coordinate ranks 0..3; NORM sibling comparison; integer lower-bound (interval) reasoning for orders",
+    "text": "Decides for every ascending order list (contiguous or gapped, any start) and every coordinate shape of rank 0..3: each store guarded by ns[k]==e holds the order-e polynomial (or its derivative) in slot k, the running index advances once per store, the sweep ends at ns[-1] (jacobi, hermite x2, laguerre, dickson x2 and the three derivative sweeps); 20 sequence functions return shape (K,*S) with per-order constants broadcast along axis 0 only; Chebyshev/Legendre sequence functions apply the same constant and parameters as the scalar ones; no order that can be negative reaches a recurrence; xy_seq monomial tables hold x**k for all k including 0. Not decided: bitwise float equality of the two evaluation orders; Qbfs/Qcon/Q2d/zernike sequence shapes.",
+    "note": OTRUST + "SHAPE broadcasting model (sa/domains/shape.py); documented contract that requested orders are ascending non-negative integers.",
+}
+CLAIMS["C09"] = {
+    "engine": "NORM",
+    "technique": "static analysis: NORM symbolic differentiation D (sum/product/quotient/chain through sqrt, exp, log, arctan, sin, cos, pow and declared atoms such as D_x jacobi = jacobi_der) compared with the returned normal forms; restricted-step rule for Clenshaw derivative seeds; ORDER for derivative sweeps",
+    "text": "Decides: jacobi_der / hermite_*_der / laguerre_der equal the reference identities for n=0, n=1 and general n; the derivative sweeps emit the derivative of the guarded order; Chebyshev/Legendre derivatives use the value functions' constants; Clenshaw-derivative seeds (Jacobi, Qbfs, Q2d) equal the general step restricted to index M-jj, sit at that index and the sweep continues below them (all derivative orders j); sphere/conic slope == d/drho of the sag; zernike_nm_der == (d/dr, d/dt) of zernike_nm for m=0, m>0, m<0 with and without norm; Qbfs/Qcon sag-slope assembly == d/du of the sag given the Clenshaw contract. Not decided: float accuracy; off-axis conic and Q2d slope assemblies.",
+    "note": OTRUST + "differentiation rules of sa/core/norm.py; Clenshaw contract alphas[j] = j-th x-derivative of alphas[0].",
+}
+CLAIMS["C10"] = {
+    "engine": "NORM",
+    "technique": "static analysis: NORM with uninterpreted recurrence coefficients for the Clenshaw step form and restricted-step rule; integer lower-bound reasoning refined by guards for the length-1 case; symmetric-guard (SYM) and dominance rules over the AST; def-use rule for the least-squares mask",
+    "text": "Decides: jacobi_sum_clenshaw, clenshaw_qbfs and clenshaw_q2d steps have the form c[n] + L(n) alpha[n+1] - C alpha[n+2] with (a,b) from n and c from n+1, their initial statements are that step restricted to the top indices and the sweep reaches index 0; with a coefficient vector of length 1 no negative order/index is formed and no missing entry is read; the cosine and sine families of the Q2d evaluator are guarded symmetrically and no Clenshaw sum runs on an empty family; the packer never takes max() of an empty key set; lstsq restricts data and modes by one finite-mask; sum_of_2d_modes contracts the mode axis. Not decided: conditioning / rank of the fit.",
+    "note": OTRUST + "Clenshaw summation identity S = alpha_0 P_0.",
+}
+CLAIMS["C14"] = {
+    "engine": "FLIP/TABLE",
+    "technique": "static analysis: abstract interpretation of writer and reader in a rank-aware flip-group domain (Z2xZ2); header-token role matching between the writer's f-string and the reader's parser; constant folding of the struct field table (sizes, overlaps); NORM composition of writer and reader scale factors; must-pass-through rule on the truncation handler",
+    "text": "Decides: reader flips compose with writer flips to the identity taking into account the rank the array has at each flip (Zygo, Code V); header tokens/fields are written and read in the same roles (rows/cols of reshape, byte count, GRD order); the 834-byte Zygo field table is self-consistent and shared; reader scale o writer scale is the identity rational function with the header values the writer stores (W,S,O,phase_res / WVL,SSZ), dx and wavelength units round trip through Interferogram; the invalid sentinel written is the one tested and NaN masks precede integer casts; the Code V quantisation scale is 32767/max|valid| (positive, no int16 overflow for any value range); a truncated phase block raises or warns and marks every missing sample invalid, a truncated intensity block raises. Not decided: the one-quantisation-step error bound itself; ASCII and datx paths.",
+    "note": TRUST + "numpy semantics of flipud on rank-1 vs rank-2 arrays; struct.calcsize; Code V GRD <nx> <ny> convention of the reader.",
+}
+CLAIMS["C15"] = {
+    "engine": "ORIGIN",
+    "technique": "static analysis: ORIGIN typestate (origin index and phase ramp per parity class) of conv, apply_transfer_functions (both conventions, arrays and callables) and transform_psf; loop-structure rule for the transfer-function fold; INDEX rule for the DC sample",
+    "text": "Decides for odd and even sizes: conv and apply_transfer_functions map a centred object to a centred image with no phase ramp (so an all-ones transfer function / centred unit impulse is the identity and impulse offsets translate); frequency grids handed to callable transfer functions use the convention of the spectrum they multiply; every element of the list multiplies the spectrum exactly once; transform_psf puts DC at n//2 without a linear phase and MTF/PTF/OTF are normalised by their own sample at n//2. Not decided: MTF <= 1, point symmetry, energy product (facts about values).",
+    "note": TRUST + "ORIGIN transfer functions for fftshift/ifftshift/fft2/ifft2 (sa/domains/origin.py); convolution theorem.",
+}
+CLAIMS["C16"] = {
+    "engine": "NORM/TABLE/SHAPE",
+    "technique": "static analysis: NORM on the clamp expressions and statement order; literal-table extraction from the CFA if-chains compared with the layout reference; constant folding of the Malvar kernels; symbolic-shape interpretation of the bin/tile views",
+    "text": "Decides for every bit depth: the ADC ceiling is 2**bits-1 and the floor 0, both before the unsigned cast, the container is at least as wide as the bit depth, full-well clipping precedes the gain, DN = e/gain; the four site slices partition the 2x2 cell and decomposite/recomposite/composite/white-balance/Malvar map colours to the same sites for rggb and bggr, with raw samples copied at native sites; each Malvar kernel sums to one; bindown reduces exactly the factor-sized axes with mean/sum and tile is the transposed view scaled by 1/prod(factor) ('sum') or 1 ('avg'). Not decided: monotonicity under noise, conservation to round-off.",
+    "note": TRUST + "reference layouts rggb/bggr and Malvar-He-Cutler estimate placement; INDEX/KERNEL shape transfer functions.",
+}
+CLAIMS["C18"] = {
+    "engine": "DATAFLOW",
+    "technique": "static analysis: statement-order dataflow over the per-segment loop bodies (list appends, the OR into the aperture, name rebinding, early exits) and the compose_opd loops",
+    "text": "NARROW claim. Decides: in both composite-aperture builders every per-segment list is appended exactly once per segment, unconditionally, with no early exit in between; the aperture mask is written only by OR-ing the (window, mask) pair that is also recorded (plus zero initialisation, the centre mask and spider removal); builder results reach the objects under matching names; composed OPD is multiplied by the segment's own mask before it is accumulated into the segment's own window. Not decided: disjointness, areas, analytic boundaries, monotonic growth, symmetry (geometry of values).",
+    "note": TRUST + "nothing beyond the parser: purely structural.",
+}
+CLAIMS["C19"] = {
+    "engine": "NORM(vec)",
+    "technique": "static analysis: vector algebra in NORM (vectors as linear combinations of {S, r} with Gram atoms) for refract/reflect; structural rules for the frame transforms, the surface normal and the Newton step; guard rule for division by the radial coordinate",
+    "text": "Decides: refract and reflect return unit direction cosines for a surface normal of ANY length (the gradient that intersect hands over), refraction scales the tangential component by n/n' (Snell), reflection is the mirror law; local/global frame transforms are R(X-P) and RX+P with directions rotated only, raytrace goes in with (P,R) and out with (P,R^T); the normal is (-dz/dx,-dz/dy,1), the Newton step is s - F/(S.gradF), the polar-to-Cartesian slope formula; no unguarded division by the radial coordinate (on-axis ray). Not decided: Newton convergence, intersection tolerance.",
+    "note": TRUST + "Gram-matrix vector algebra (sa/rules/c19.py).",
+}
+
 NOT_APPLICABLE = {
     "C11": "index bijections are float sqrt/ceil algebra on the index; their failure mode is a rounding event at particular j and the deciding step named by the property (exhaustive j <= 1e5) is execution; no finite static abstraction of j decides it (DESIGN.md section 4, C11)",
 }
-for _p in ("C07 C08 C09 C10 C14 C15 C16 C18 C19").split():
-    NOT_APPLICABLE[_p] = "check not delivered yet in this revision of /verif (design in DESIGN.md section 4); will be claimed only through the structural clauses named there once its rule module exists"
